@@ -120,6 +120,11 @@ impl SecondaryStorage {
         &self.catalog
     }
 
+    /// Whether blocks record their first key (required by the range-filter scan).
+    pub fn records_first_key(&self) -> bool {
+        self.options.record_first_key
+    }
+
     pub async fn spawn_compactor(self: &Arc<Self>) {
         let (tx, rx) = tokio::sync::oneshot::channel();
         let storage = self.clone();
